@@ -12,6 +12,11 @@ its `j`-th frame is a FRESH buffer holding the concatenation - over the given st
 the current content of their `j`-th frames; nothing else in the world changes.  `from_collection_read` composes
 this with `read_world`/`items_world`: what `result[j]` and `result.items()` RETURN.  `from_collection_succeeds`
 is the converse: the conditions under which the call succeeds.
+
+Further sections: `bisect_local` / `extract_time_range_any_times(_world)` (item 1: on ANY times the run found starts
+and ends at crossing points of the stored times), `world_slice_returns_appended` and
+`world_view_read_returns_appended` (items 2, 3: what `storage[a:b]` and `storage.view_field(fid)[i]` RETURN, against
+the specification log of a storage created in any reachable world), `view_items_world` (`view_field(fid).items()`).
 -/
 namespace PdeVerif.Storage
 
